@@ -20,6 +20,13 @@ impl<F: Future> Future for Perturbed<F> {
             if w.polls_since_progress > w.spin_limit {
                 w.spin = true;
             }
+            // reach probe: how close do legitimate runs come to the spin limit?
+            match w.polls_since_progress {
+                1_000 => *w.probes.entry("sched.polls_without_event>=1e3".into()).or_insert(0) += 1,
+                10_000 => *w.probes.entry("sched.polls_without_event>=1e4".into()).or_insert(0) += 1,
+                100_000 => *w.probes.entry("sched.polls_without_event>=1e5".into()).or_insert(0) += 1,
+                _ => {}
+            }
             (w.spin, w.knobs.defer_ppm)
         });
         let (spin, defer_ppm) = match st {
